@@ -39,6 +39,7 @@ type verifOp struct {
 	Eval bool   `json:"eval"` // fault / replace: EVAL answered
 	Ping bool   `json:"ping"` // fault / replace: PING answered
 	Hard bool   `json:"hard"` // fault with eval=ping=false: close the listener instead of error replies
+	Hang bool   `json:"hang"` // fault with eval=ping=false: accept every command and never answer
 }
 
 type verifCase struct {
@@ -46,6 +47,9 @@ type verifCase struct {
 	Lims  []verifLim `json:"lims"`
 	Rate  int        `json:"rate"`
 	Burst int        `json:"burst"`
+	Clk   string     `json:"clk"`   // period: "real" = the server clock starts at the wall clock + skew
+	Skew  int64      `json:"skew"`  // period, clk real: server clock minus caller (wall) clock, seconds
+	RTO   int64      `json:"rto"`   // token: go-redis read/write/dial timeout in ms (0: the package's defaults)
 	Insts int        `json:"insts"` // token: number of limiter instances on the one key (1 or 2)
 	T0    int64      `json:"t0"`    // start of the clock, unix ms
 	Ops   []verifOp  `json:"ops"`
@@ -61,6 +65,9 @@ type verifServer struct {
 	pingUp  bool
 	caseSeq int
 	stuck   bool
+	hang    chan struct{} // non-nil: every command is parked on it and then dropped (never answered)
+	slow    chan struct{} // non-nil: EVAL/EVALSHA are parked on it and then dropped
+	healMax time.Duration
 }
 
 func (v *verifServer) apply() {
@@ -68,11 +75,20 @@ func (v *verifServer) apply() {
 		return
 	}
 	evalUp, pingUp := v.evalUp, v.pingUp
-	if evalUp && pingUp {
+	hang, slow := v.hang, v.slow
+	if evalUp && pingUp && hang == nil && slow == nil {
 		v.s.Server().SetPreHook(nil)
 		return
 	}
 	v.s.Server().SetPreHook(server.Hook(func(c *server.Peer, cmd string, args ...string) bool {
+		if hang != nil {
+			<-hang // the server has accepted the command and stays silent
+			return true
+		}
+		if slow != nil && (cmd == "EVAL" || cmd == "EVALSHA") {
+			<-slow // answered later than the caller is prepared to wait: the caller has hung up by then
+			return true
+		}
 		switch cmd {
 		case "PING":
 			if !pingUp {
@@ -89,7 +105,24 @@ func (v *verifServer) apply() {
 	}))
 }
 
+// setHang switches the "accepts connections but never answers" outage on or off; commands parked
+// meanwhile are dropped when it ends.
+func (v *verifServer) setHang(on bool) {
+	if on == (v.hang != nil) {
+		return
+	}
+	if on {
+		v.hang = make(chan struct{})
+		v.apply()
+		return
+	}
+	close(v.hang)
+	v.hang = nil
+	v.apply()
+}
+
 func (v *verifServer) set(evalUp, pingUp, hard bool) {
+	v.setHang(false)
 	wantClosed := hard && !evalUp && !pingUp
 	v.evalUp, v.pingUp = evalUp, pingUp
 	if wantClosed {
@@ -114,6 +147,12 @@ func (v *verifServer) set(evalUp, pingUp, hard bool) {
 // replace closes the current instance (if still listening) and starts a NEW miniredis on the same
 // address: nothing of the old server survives, as after a restart without persistence or a fail-over.
 func (v *verifServer) replace(evalUp, pingUp bool, now time.Time) {
+	v.replaceServer(evalUp, pingUp, now)
+	v.drain()
+}
+
+func (v *verifServer) replaceServer(evalUp, pingUp bool, now time.Time) {
+	v.setHang(false)
 	if !v.closed {
 		v.s.Close()
 	}
@@ -133,7 +172,6 @@ func (v *verifServer) replace(evalUp, pingUp bool, now time.Time) {
 	v.evalUp, v.pingUp = evalUp, pingUp
 	s2.SetTime(now)
 	v.apply()
-	v.drain()
 }
 
 // drain makes go-redis throw away the pooled connections that died with the closed listener
@@ -180,6 +218,11 @@ func verifPeriod(v *verifServer, c verifCase) any {
 		lims[i] = NewPeriodLimit(l.Period, l.Quota, redis.New(v.addr), prefix+strconv.Itoa(l.Pfx)+":", opts...)
 	}
 	clock := c.T0
+	if c.Clk == "real" {
+		// the callers of the period limiter live on the wall clock (calcExpireSeconds); the server's
+		// clock is that clock plus a constant skew, stepped by the history
+		clock = time.Now().UnixMilli() + c.Skew*1000
+	}
 	v.s.SetTime(time.UnixMilli(clock))
 	out := make([]map[string]any, 0, len(c.Ops))
 	for _, op := range c.Ops {
@@ -255,7 +298,7 @@ func verifHeal(v *verifServer, tl *TokenLimiter) bool {
 	if !started || !v.pingUp || v.closed || v.stuck {
 		return true
 	}
-	deadline := time.Now().Add(3 * time.Second)
+	deadline := time.Now().Add(3*time.Second + v.healMax)
 	for time.Now().Before(deadline) {
 		tl.rescueLock.Lock()
 		started = tl.monitorStarted
@@ -271,6 +314,18 @@ func verifHeal(v *verifServer, tl *TokenLimiter) bool {
 
 func verifToken(v *verifServer, c verifCase) any {
 	name := fmt.Sprintf("t%d", v.caseSeq)
+	if c.RTO > 0 {
+		redis.VerifUseTimeouts(v.addr, time.Duration(c.RTO)*time.Millisecond)
+		defer redis.VerifResetClients()
+		v.healMax = 5 * time.Duration(c.RTO) * time.Millisecond
+	} else {
+		for _, op := range c.Ops {
+			if op.Hang {
+				v.healMax = 13 * time.Second // a ping caught by a hang gives up after 4 x 3 s
+			}
+		}
+	}
+	defer func() { v.healMax = 0 }()
 	insts := c.Insts
 	if insts < 1 {
 		insts = 1
@@ -338,6 +393,22 @@ func verifToken(v *verifServer, c verifCase) any {
 			v.s.FastForward(time.Duration(op.Ms) * time.Millisecond)
 			out = append(out, snap(map[string]any{}))
 		case "allow":
+			if op.Ctx == 3 {
+				// the deadline expires while the script call is in flight: Redis is healthy but
+				// answers this call later than the caller waits
+				v.slow = make(chan struct{})
+				v.apply()
+				ctx, cancel := context.WithTimeout(context.Background(), 40*time.Millisecond)
+				t0 := time.Now()
+				ok := tls[op.Inst].AllowNCtx(ctx, time.UnixMilli(clock+op.Skew), op.N)
+				waited := time.Since(t0) >= 35*time.Millisecond
+				cancel()
+				close(v.slow)
+				v.slow = nil
+				v.apply()
+				out = append(out, snap(map[string]any{"ok": ok, "waited": waited}))
+				break
+			}
 			ctx, cancel := mkctx(op.Ctx)
 			ok := tls[op.Inst].AllowNCtx(ctx, time.UnixMilli(clock+op.Skew), op.N)
 			cancel()
@@ -362,7 +433,12 @@ func verifToken(v *verifServer, c verifCase) any {
 			wg.Wait()
 			out = append(out, snap(map[string]any{"granted": granted}))
 		case "fault":
-			v.set(op.Eval, op.Ping, op.Hard)
+			if op.Hang && !op.Eval && !op.Ping {
+				v.set(false, false, false)
+				v.setHang(true)
+			} else {
+				v.set(op.Eval, op.Ping, op.Hard)
+			}
 			out = append(out, snap(map[string]any{}))
 		case "replace":
 			v.replace(op.Eval, op.Ping, time.UnixMilli(clock))
@@ -400,7 +476,9 @@ func TestVerifDriver(t *testing.T) {
 		v.stuck = false
 		// every case starts on a fresh server and with an empty process-wide script-sha cache, so
 		// that a case (and its replay) does not depend on the cases that ran before it
-		v.replace(true, true, time.UnixMilli(c.T0))
+		// (no limiter exists yet: the cached go-redis clients are simply dropped with the old server)
+		v.replaceServer(true, true, time.UnixMilli(c.T0))
+		redis.VerifResetClients()
 		redis.GetScriptCache().Store(make(redis.Map))
 		defer func() {
 			v.set(true, true, false)
